@@ -87,7 +87,18 @@ def rand_table(r, nmax):
         tb["lon"] = [r.randint(-40, 40) for _ in range(n)]
     if r.random() < 0.12:
         tb["hastime"] = False        # the stream gets no time array: no windows possible
+    elif n >= 2 and r.random() < 0.2:
+        # time stamps that repeat, or rows that are not in time order: a window is a set of rows, in original order
+        if r.random() < 0.5:
+            for i in r.sample(range(1, n), max(1, n // 3)):
+                tb["t"][i] = tb["t"][i - 1]
+        else:
+            r.shuffle(tb["t"])
     return tb
+
+
+def increasing(tb):
+    return all(a < b for a, b in zip(tb["t"], tb["t"][1:]))
 
 
 def rand_config(r, tb, faults):
@@ -100,7 +111,7 @@ def rand_config(r, tb, faults):
                 keys.add((e["stream"], e["fn"]))
                 ents.append(e)
         return [{"win": [NA, NA], "entries": ents}]
-    cuts = sorted(set([t[0]] + [r.choice(t) + r.choice([0, 0, 1, -1]) for _ in range(r.randint(0, 3))]))
+    cuts = sorted(set([min(t)] + [r.choice(t) + r.choice([0, 0, 1, -1]) for _ in range(r.randint(0, 3))]))
     style = r.choice(["none", "partition", "partition", "holes", "overlap", "empty_first"])
     if style == "none":
         wins = [[NA, NA]]
@@ -111,7 +122,7 @@ def rand_config(r, tb, faults):
     elif style == "holes":
         wins = [[cuts[0], cuts[len(cuts) // 2]]] + ([[cuts[-1], NA]] if len(cuts) > 1 else [])
     elif style == "empty_first":
-        wins = [[t[0], t[0]], [NA, NA]]
+        wins = [[min(t), min(t)], [NA, NA]]
     else:
         wins = [[NA, cuts[-1]], [cuts[0], NA]]
     wins = wins[:3]
@@ -122,6 +133,8 @@ def rand_config(r, tb, faults):
         ents, keys = [], set()
         for _ in range(r.randint(1, 3)):
             e = r.choice(POOL_F)(r) if (faults and r.random() < 0.45) else r.choice(POOL_H)(r)
+            if e["fn"] == "roc" and not increasing(tb):
+                continue        # the rate test is only stated for strictly increasing time axes
             k = (e["stream"], e["fn"])
             # keep one parameter set per key across contexts (C06 merges contexts per key)
             if k in keys:
